@@ -27,13 +27,18 @@
   direction (open finding F48: the full-strength "the far end observes end-of-stream" is
   `c03_legs_half_close_relayed_full`, proved for legs with a `CloseWrite`, refuted by a witness for a leg
   without).  Section K puts the request / dial limits on the clock (`Limits`, `lstep`): none of them is
-  armed on, enables or disables any step of, an established tunnel.
+  armed on, enables or disables any step of, an established tunnel.  Section L is about a copy direction that
+  ends with an ERROR instead of a clean end-of-stream (`AState`, `astep`): the copier whose source failed tells
+  its destination that the stream is over exactly as after a clean end-of-stream, at once and not by the grace
+  timer; a kernel-checked witness shows what a copier that skips `closeWriter` after a "closed connection"
+  error does instead.
 
   Bytes used in the examples: 72 = 'H' (head), 82 = 'R' (reply head), payload bytes 1 … 9.
 -/
 import FwdVerif.Lemmas.C03
 import FwdVerif.Lemmas.C03Indep
 import FwdVerif.Lemmas.C03Legs
+import FwdVerif.Lemmas.C03Abort
 
 namespace FwdVerif
 namespace C03
@@ -1156,6 +1161,337 @@ theorem c03_limits_inherited_deadline_witness :
           some l₂ ∧ l₂.cutByLimit = false ∧ l₂.t.s.down.delivered = [7, 8, 9] ∧ l₂.t.s.down.eof = false :=
   ⟨exCfg, exT, exLim, exLSteps.take 9, _, _, rfl, by decide, by decide, by decide, by decide, rfl, by decide,
     by decide, by decide, by decide, by decide, _, rfl, by decide, by decide, by decide⟩
+
+/-! ## L. A copy direction that ends with an error: the end is relayed all the same
+
+  `Model/C03.lean` `AState` / `astep`: the machine of section J (the code's `CwPolicy.leave`) with the two ways
+  a copier returns on an error on top — `abort d k`: the `Read` of its source fails (the sending endpoint reset
+  the connection, a TLS leg was cut); `writeFail d`: the `Write` to its destination fails (that endpoint is
+  gone).  `ErrPolicy.always` is the code: `closeWriter` whatever `io.CopyBuffer` returned. -/
+
+/-- head + `1 2 3`, reply + `7 8`; the tunnel is up, `1 2 3` and `7 8` have arrived, the target is idle and
+    waits for the end of the client's stream -/
+def exASteps : List AStep :=
+  (exSteps.take 8).map .s ++ [.s (.copy .up 1)]
+
+/-- the bytes are the plain machine's, under every policy: in every reachable state of the machine with
+    errors what either endpoint has received is a prefix of what its peer wrote after its head — bytes
+    delivered before an abort included — and nothing is cut -/
+theorem c03_abort_delivered_prefix {c : Cfg} {L : Legs} {pol : ErrPolicy} {steps : List AStep} {a : AState}
+    (hx : arun c L pol steps = some a) (hc : c.replyExact) :
+    a.h.s.up.delivered <+: stream c a.h.s .up ∧ a.h.s.down.delivered <+: stream c a.h.s .down ∧
+      a.h.cut = false := by
+  have hi := ainv_run hx
+  obtain ⟨ps, hr⟩ := hi.reach
+  exact ⟨c03_up_delivered_prefix hr, c03_down_delivered_prefix hr hc, hi.noCut⟩
+
+example : ∃ a, arun exCfg {} .always (exASteps ++ [.abort .up .connClosed]) = some a ∧
+    a.h.s.up.delivered = [1, 2, 3] ∧ a.h.s.down.delivered = [7, 8] := ⟨_, rfl, by decide⟩
+
+/-- AN ABORT RELAYS THE END.  The source of direction `d` fails with a read error — whatever its kind —
+    while the tunnel is up.  Then, by that very step and without the grace timer: the copier of `d` has
+    returned, the far end of `d` (a leg with `CloseWrite`) is shown end-of-stream exactly as after a clean
+    `eof d`; no byte of either direction is touched, so what was delivered before the abort stays a prefix of
+    what was sent; if the opposite copier had returned already both sockets are closed; if not, nothing is
+    closed, the timer is armed, and the opposite direction goes on: it copies whatever its source still offers,
+    finishes when its source has (both sockets are closed then, the timer never fires), or fails on the
+    write to the endpoint that is gone (likewise) -/
+theorem c03_abort_relays_end {c : Cfg} {L : Legs} {steps : List AStep} {a a' : AState} {d : Dir} {k : ErrKind}
+    (hx : arun c L .always steps = some a) (hs : astep c L .always a (.abort d k) = some a')
+    (hcap : L.dst d = .halfClose) (hc : c.replyExact) :
+    a'.h.shown d = true ∧ a'.expired = false ∧ a'.returned d = true ∧ a'.h.s = a.h.s ∧
+      (a'.h.s.pipe d).delivered <+: stream c a'.h.s d ∧
+      (a'.h.s.pipe d.other).delivered <+: stream c a'.h.s d.other ∧
+      (a.returned d.other = true → a'.closed = true ∧ a'.h.shownU = true ∧ a'.h.shownD = true) ∧
+      (a.returned d.other = false →
+        a'.closed = false ∧ a'.grace = true ∧ a'.h.shown d.other = a.h.shown d.other ∧
+        (∀ n, 1 ≤ n → n ≤ c.copyMax → n ≤ (a'.h.s.pipe d.other).avail →
+          (astep c L .always a' (.s (.copy d.other n))).isSome = true) ∧
+        ((a'.h.s.pipe d.other).fin = true → (a'.h.s.pipe d.other).avail = 0 →
+          ∃ a'', astep c L .always a' (.s (.eof d.other)) = some a'' ∧ a''.closed = true ∧ a''.expired = false) ∧
+        (1 ≤ (a'.h.s.pipe d.other).avail →
+          ∃ a'', astep c L .always a' (.writeFail d.other) = some a'' ∧ a''.closed = true ∧
+            a''.expired = false)) := by
+  have hi := ainv_run hx
+  have hi' := ainv_step hi hs
+  have hx' := arun_snoc hx hs
+  have hpre := c03_abort_delivered_prefix hx' hc
+  rcases astep_cases hs with ⟨_, _, e, _⟩ | ⟨_, _, e, _⟩ | ⟨e, _⟩ | ⟨d', k', e, hp, hcl, hret, ha'⟩ | ⟨_, e, _⟩
+  · exact absurd e (by simp)
+  · exact absurd e (by simp)
+  · exact absurd e (by simp)
+  · obtain ⟨rfl, rfl⟩ : d = d' ∧ k = k' := by
+      have := AStep.abort.inj e; exact ⟨this.1, this.2⟩
+    have hexp : a.expired = false := by
+      cases he : a.expired
+      · rfl
+      · have := hi.expiredClosed he; rw [hcl] at this; exact absurd this (by decide)
+    -- the state before `bicopy`'s bookkeeping
+    generalize hm : (({ a with h := if ErrPolicy.always.callsCloseWriter k = true then a.h.closeWriter L d
+      else a.h } : AState).setFailed d) = m at ha'
+    have mh : m.h = a.h.closeWriter L d := by
+      rw [← hm]; simp [ErrPolicy.callsCloseWriter]
+    have mcl : m.closed = false := by rw [← hm]; simp [hcl]
+    have mex : m.expired = false := by rw [← hm]; simp [hexp]
+    have mrd : m.returned d = true := by rw [← hm]; exact setFailed_returned_same _ d
+    have mfo : m.failed d.other = a.failed d.other := by
+      rw [← hm, setFailed_failed_other]; cases d <;> rfl
+    have mro : m.returned d.other = a.returned d.other := by
+      rw [← hm, setFailed_returned_other]
+      cases d <;> simp [AState.returned, AState.failed, ErrPolicy.callsCloseWriter]
+    have msh : m.h.shown d = true := by rw [mh]; exact closeWriter_shown_capable _ _ _ hcap
+    have mso : m.h.shown d.other = a.h.shown d.other := by rw [mh]; exact closeWriter_shown_other _ _ _
+    subst ha'
+    have hs' : m.settle.h.s = a.h.s := by rw [settle_s, mh, closeWriter_s]
+    have hprd : (m.settle.h.s.pipe d).delivered <+: stream c m.settle.h.s d := by
+      cases d
+      · exact hpre.1
+      · exact hpre.2.1
+    have hpro : (m.settle.h.s.pipe d.other).delivered <+: stream c m.settle.h.s d.other := by
+      cases d
+      · exact hpre.2.1
+      · exact hpre.1
+    have hshown : m.settle.h.shown d = true := by
+      by_cases hb : m.returned .up = true ∧ m.returned .down = true
+      · have := settle_both _ hb.1 hb.2
+        cases d
+        · exact this.2.1
+        · exact this.2.2
+      · rw [(settle_one _ hb).2]; exact msh
+    refine ⟨hshown, by rw [settle_expired]; exact mex, by rw [settle_returned]; exact mrd, hs', hprd, hpro, ?_, ?_⟩
+    · intro ho
+      have hb : m.returned .up = true ∧ m.returned .down = true := by
+        rw [← mro] at ho
+        cases d
+        · exact ⟨mrd, ho⟩
+        · exact ⟨ho, mrd⟩
+      exact settle_both _ hb.1 hb.2
+    · intro ho
+      have hnb : ¬ (m.returned .up = true ∧ m.returned .down = true) := by
+        rw [← mro] at ho
+        intro hb
+        cases d
+        · rw [show Dir.other .up = .down from rfl] at ho; rw [ho] at hb; exact absurd hb.2 (by decide)
+        · rw [show Dir.other .down = .up from rfl] at ho; rw [ho] at hb; exact absurd hb.1 (by decide)
+      obtain ⟨scl, sh⟩ := settle_one _ hnb
+      obtain ⟨hdo, hfo⟩ := returned_false ho
+      have sfo : m.settle.failed d.other = false := by rw [settle_failed, mfo]; exact hfo
+      have sfd : m.settle.failed d = true := by
+        rw [settle_failed, ← hm]; simp
+      have scl' : m.settle.closed = false := by rw [scl]; exact mcl
+      have sdo : (m.settle.h.s.pipe d.other).done = false := by rw [hs']; exact hdo
+      have sph : m.settle.h.s.phase = .tunnel := by rw [hs']; exact hp
+      refine ⟨scl', settle_grace _, by rw [sh]; exact mso, ?_, ?_, ?_⟩
+      · intro n h1 h2 h3
+        rw [astep_copy_isSome scl' sfo]
+        simp only [step]
+        rw [if_pos ⟨sph, sdo, h1, h2, h3⟩]
+        rfl
+      · intro hf hav
+        have hen : ∃ s', step c m.settle.h.s (.eof d.other) = some s' := by
+          simp only [step]
+          rw [if_pos ⟨sph, sdo, hf, hav⟩]
+          split <;> exact ⟨_, rfl⟩
+        obtain ⟨s', hst⟩ := hen
+        obtain ⟨h', _, hh's, has⟩ := astep_eof_some (L := L) (pol := .always) scl' sfo hst
+        refine ⟨_, has, ?_, ?_⟩
+        · have r1 : ({ m.settle with h := h' } : AState).returned d.other = true := by
+            have := (step_eof_spec hst).1
+            rw [← hh's] at this
+            exact returned_of_done this
+          have r2 : ({ m.settle with h := h' } : AState).returned d = true := by
+            have : ({ m.settle with h := h' } : AState).failed d = true := by
+              cases d <;> exact sfd
+            exact returned_of_failed this
+          cases d
+          · exact (settle_both _ r2 r1).1
+          · exact (settle_both _ r1 r2).1
+        · rw [settle_expired]; show m.settle.expired = false; rw [settle_expired]; exact mex
+      · intro hav
+        have hen : astep c L .always m.settle (.writeFail d.other) = some ((m.settle.setFailed d.other).settle) := by
+          simp only [astep]
+          rw [if_pos]
+          refine ⟨sph, scl', ?_, ?_, hav⟩
+          · unfold AState.returned; rw [sdo, sfo]; rfl
+          · rw [other_other]; exact sfd
+        refine ⟨_, hen, ?_, ?_⟩
+        · have r1 : (m.settle.setFailed d.other).returned d.other = true := setFailed_returned_same _ _
+          have r2 : (m.settle.setFailed d.other).returned d = true := by
+            have := setFailed_returned_other m.settle d.other
+            rw [other_other] at this
+            rw [this, settle_returned]; exact mrd
+          cases d
+          · exact (settle_both _ r2 r1).1
+          · exact (settle_both _ r1 r2).1
+        · rw [settle_expired, setFailed_expired, settle_expired]; exact mex
+  · exact absurd e (by simp)
+
+/-- the client resets the connection while the target is idle: the target is shown end-of-stream at once,
+    half-closes in its turn, and both sockets are closed — no timer involved -/
+example : ∃ a a', arun exCfg {} .always exASteps = some a ∧ a.h.shownU = false ∧
+    astep exCfg {} .always a (.abort .up .connClosed) = some a' ∧ a'.h.shownU = true ∧ a'.closed = false ∧
+    ∃ a'', arunFrom exCfg {} .always a' [.s (.fin .down), .s (.eof .down)] = some a'' ∧ a''.closed = true ∧
+      a''.expired = false ∧ a''.h.shownD = true := ⟨_, _, rfl, by decide, rfl, by decide, by decide, _, rfl, by decide⟩
+
+/-- … while the target is still sending: the write to the client that is gone fails, both sockets are closed -/
+example : ∃ a, arun exCfg {} .always (exASteps ++ [.abort .up .connClosed, .s (.targetWrite [9]), .writeFail .down]) =
+    some a ∧ a.closed = true ∧ a.expired = false ∧ a.h.shownU = true := ⟨_, rfl, by decide⟩
+
+/-- WHEN BOTH DIRECTIONS ARE FINISHED — each by end-of-stream or by an error — BOTH SOCKETS ARE CLOSED, and
+    unless the grace timer did it everybody has been shown end-of-stream; under every policy -/
+theorem c03_abort_both_finished_closed {c : Cfg} {L : Legs} {pol : ErrPolicy} {steps : List AStep} {a : AState}
+    (hx : arun c L pol steps = some a) (hu : a.returned .up = true) (hd : a.returned .down = true) :
+    a.closed = true ∧ (a.expired = false → a.h.shownU = true ∧ a.h.shownD = true) := by
+  have hi := ainv_run hx
+  have hc := hi.bothClosed hu hd
+  exact ⟨hc, hi.closedShown hc⟩
+
+example : ∃ a, arun exCfg {} .always (exASteps ++ [.abort .up .other, .abort .down .connClosed]) = some a ∧
+    a.returned .up = true ∧ a.returned .down = true ∧ a.closed = true := ⟨_, rfl, by decide⟩
+
+/-- nothing is closed early: a tunnel is closed only when both copiers have returned or the grace timer
+    has fired, and the timer is armed — and can fire — only once a copier has returned -/
+theorem c03_abort_no_early_close {c : Cfg} {L : Legs} {pol : ErrPolicy} {steps : List AStep} {a : AState}
+    (hx : arun c L pol steps = some a) :
+    (a.closed = true → (a.returned .up = true ∧ a.returned .down = true) ∨ a.expired = true) ∧
+      (a.expired = true → a.closed = true) ∧
+      (a.grace = true ↔ (a.returned .up = true ∨ a.returned .down = true)) ∧
+      ((astep c L pol a (.s .graceExpire)).isSome = true →
+        a.returned .up = true ∨ a.returned .down = true) := by
+  have hi := ainv_run hx
+  refine ⟨hi.closedWhy, hi.expiredClosed, hi.graceIff, ?_⟩
+  intro hs
+  cases hh : astep c L pol a (.s .graceExpire) with
+  | none => rw [hh] at hs; exact absurd hs (by simp)
+  | some a' =>
+    rcases astep_cases hh with ⟨_, _, e, hne, hng, _⟩ | ⟨_, _, e, _⟩ | ⟨_, _, hg, _⟩ | ⟨_, _, e, _⟩ | ⟨_, e, _⟩
+    · have := AStep.s.inj e; subst this; exact absurd rfl hng
+    · exact absurd (AStep.s.inj e) (by simp)
+    · exact hi.graceIff.mp hg
+    · exact absurd e (by simp)
+    · exact absurd e (by simp)
+
+example : ∃ a, arun exCfg {} .always exASteps = some a ∧ a.closed = false ∧
+    astep exCfg {} .always a (.s .graceExpire) = none := ⟨_, rfl, by decide⟩
+
+/-- THE VARIANT THE CODE MUST NOT BECOME — no `closeWriter` after an error `isClosedConnError` recognises
+    ("the connection is gone, nothing left to half-close").  Same tunnel, same reset of the client's
+    connection: under the code's policy the idle target is shown end-of-stream by the abort itself and the
+    tunnel ends without the timer; under the variant the target is shown NOTHING, the proxy has no step left
+    but the grace timer — the copier towards the client waits for the target, which waits for the end of the
+    client's stream —, and only its expiry closes the tunnel -/
+theorem c03_abort_skip_closewriter_witness :
+    ∃ (c : Cfg) (L : Legs) (steps : List AStep) (a a' : AState), L.dst .up = .halfClose ∧
+      arun c L .skipOnConnClosed (steps ++ [.abort .up .connClosed]) = some a ∧
+      a.returned .up = true ∧ a.h.shownU = false ∧ a.closed = false ∧ a.grace = true ∧
+      (a.h.s.pipe .down).avail = 0 ∧ (a.h.s.pipe .down).fin = false ∧
+      (∀ n, astep c L .skipOnConnClosed a (.s (.copy .down n)) = none) ∧
+      astep c L .skipOnConnClosed a (.s (.eof .down)) = none ∧
+      astep c L .skipOnConnClosed a (.writeFail .down) = none ∧
+      astep c L .skipOnConnClosed a (.s .graceExpire) = some a' ∧ a'.closed = true ∧ a'.expired = true ∧
+      a'.h.shownU = false ∧
+      ∃ a₂, arun c L .always (steps ++ [.abort .up .connClosed]) = some a₂ ∧ a₂.h.shownU = true ∧
+        a₂.h.s = a.h.s ∧
+        ∃ a₃, arunFrom c L .always a₂ [.s (.fin .down), .s (.eof .down)] = some a₃ ∧ a₃.closed = true ∧
+          a₃.expired = false := by
+  refine ⟨exCfg, {}, exASteps, _, _, rfl, rfl, by decide, by decide, by decide, by decide, by decide, by decide,
+    ?_, by decide, by decide, rfl, by decide, by decide, by decide, _, rfl, by decide, by decide, _, rfl,
+    by decide, by decide⟩
+  exact fun n => astep_copy_none_of_avail_zero (by decide)
+
+/-- THE FAMILY OF THE VARIANT, not one schedule: under the policy that skips `closeWriter` after a
+    closed-connection error, whenever the source of `d` fails with such an error while the opposite copier is
+    running, the far end of `d` is shown nothing by that step, and from then on the proxy itself has NO step
+    but the grace timer for as long as the surviving endpoint neither writes nor finishes — the copier of `d`
+    has returned, the opposite one can neither copy (nothing to read), nor finish (its source has not), nor
+    fail (nothing to write) —, while the surviving endpoint waits for an end of the stream that nobody relays -/
+theorem c03_abort_variant_waits_for_timer {c : Cfg} {L : Legs} {steps : List AStep} {a a' : AState} {d : Dir}
+    (hx : arun c L .skipOnConnClosed steps = some a)
+    (hs : astep c L .skipOnConnClosed a (.abort d .connClosed) = some a') (ho : a.returned d.other = false) :
+    a'.h = a.h ∧ a'.closed = false ∧ a'.expired = false ∧ a'.grace = true ∧
+      (∀ n, astep c L .skipOnConnClosed a' (.s (.copy d n)) = none) ∧
+      astep c L .skipOnConnClosed a' (.s (.eof d)) = none ∧
+      (∀ k, astep c L .skipOnConnClosed a' (.abort d k) = none) ∧
+      astep c L .skipOnConnClosed a' (.writeFail d) = none ∧
+      ((a'.h.s.pipe d.other).avail = 0 → (a'.h.s.pipe d.other).fin = false →
+        (∀ n, astep c L .skipOnConnClosed a' (.s (.copy d.other n)) = none) ∧
+        astep c L .skipOnConnClosed a' (.s (.eof d.other)) = none ∧
+        astep c L .skipOnConnClosed a' (.writeFail d.other) = none) ∧
+      (astep c L .skipOnConnClosed a' (.s .graceExpire)).isSome = true := by
+  have hi := ainv_run hx
+  rcases astep_cases hs with ⟨_, _, e, _⟩ | ⟨_, _, e, _⟩ | ⟨e, _⟩ | ⟨d', k', e, hp, hcl, hret, ha'⟩ | ⟨_, e, _⟩
+  · exact absurd e (by simp)
+  · exact absurd e (by simp)
+  · exact absurd e (by simp)
+  · obtain ⟨rfl, rfl⟩ : d = d' ∧ ErrKind.connClosed = k' := by
+      have := AStep.abort.inj e; exact ⟨this.1, this.2⟩
+    have hexp : a.expired = false := by
+      cases he : a.expired
+      · rfl
+      · have := hi.expiredClosed he; rw [hcl] at this; exact absurd this (by decide)
+    have hcw : ErrPolicy.skipOnConnClosed.callsCloseWriter ErrKind.connClosed = false := rfl
+    simp only [hcw, Bool.false_eq_true, if_false] at ha'
+    generalize hm : (({ a with h := a.h } : AState).setFailed d) = m at ha'
+    have mh : m.h = a.h := by rw [← hm]; simp
+    have mcl : m.closed = false := by rw [← hm]; simp [hcl]
+    have mex : m.expired = false := by rw [← hm]; simp [hexp]
+    have mfd : m.failed d = true := by rw [← hm]; simp
+    have mrd : m.returned d = true := returned_of_failed mfd
+    have mro : m.returned d.other = false := by
+      rw [← hm, setFailed_returned_other]
+      rw [← ho]
+    have hnb : ¬ (m.returned .up = true ∧ m.returned .down = true) := by
+      intro hb
+      cases d
+      · rw [show Dir.other .up = .down from rfl] at mro; rw [mro] at hb; exact absurd hb.2 (by decide)
+      · rw [show Dir.other .down = .up from rfl] at mro; rw [mro] at hb; exact absurd hb.1 (by decide)
+    obtain ⟨scl, sh⟩ := settle_one _ hnb
+    subst ha'
+    have sfd : m.settle.failed d = true := by rw [settle_failed]; exact mfd
+    have scl' : m.settle.closed = false := by rw [scl]; exact mcl
+    have sph : m.settle.h.s.phase = .tunnel := by rw [sh, mh]; exact hp
+    have srd : m.settle.returned d = true := by rw [settle_returned]; exact mrd
+    have fl := astep_failed_none (c := c) (L := L) (pol := .skipOnConnClosed) sfd
+    refine ⟨by rw [sh, mh], scl', by rw [settle_expired]; exact mex, settle_grace _, fl.1, fl.2, ?_, ?_, ?_, ?_⟩
+    · intro k
+      simp only [astep]
+      rw [if_neg]
+      intro hc
+      rw [srd] at hc
+      exact absurd hc.2.2 (by decide)
+    · simp only [astep]
+      rw [if_neg]
+      intro hc
+      rw [srd] at hc
+      exact absurd hc.2.2.1 (by decide)
+    · intro hav hfin
+      refine ⟨fun n => astep_copy_none_of_avail_zero hav, astep_eof_none_of_not_fin hfin, ?_⟩
+      simp only [astep]
+      rw [if_neg]
+      intro hc
+      have := hc.2.2.2.2
+      omega
+    · simp only [astep]
+      rw [if_pos ⟨scl', settle_grace _, sph⟩]
+      split <;> rfl
+  · exact absurd e (by simp)
+
+example : ∃ a a', arun exCfg {} .skipOnConnClosed exASteps = some a ∧ a.returned .down = false ∧
+    astep exCfg {} .skipOnConnClosed a (.abort .up .connClosed) = some a' ∧ a'.h.shownU = false ∧
+    (a'.h.s.pipe .down).avail = 0 ∧ (a'.h.s.pipe .down).fin = false := ⟨_, _, rfl, by decide, rfl, by decide⟩
+
+/-- WITHOUT ERRORS THE MACHINE IS THE ONE OF SECTION J: a schedule in which no copy fails runs on the machine
+    with copy errors exactly as on the machine with leg capabilities (so sections A–J hold of it), under every
+    policy, and the layer's own bookkeeping — closed, timer armed, timer fired — is the plain machine's -/
+theorem c03_abort_without_errors_is_legs_machine {c : Cfg} {L : Legs} {pol : ErrPolicy} {steps : List Step}
+    {a : AState} (hx : arun c L pol (steps.map .s) = some a) :
+    hrun c L .leave steps = some a.h ∧ a.failedU = false ∧ a.failedD = false ∧
+      a.expired = a.h.s.expired ∧ (a.closed = true ↔ a.h.s.phase = .closed) ∧ a.grace = a.h.s.grace := by
+  obtain ⟨hr, hi⟩ := arunFrom_plain (cinv_init c L) hx
+  exact ⟨hr, hi.noFailU, hi.noFailD, hi.expiredEq, hi.closedIff, hi.graceEq⟩
+
+example : ∃ a h, arun exCfg exLegs .always (exSteps.map .s) = some a ∧ hrun exCfg exLegs .leave exSteps = some h ∧
+    a.h = h ∧ a.closed = true ∧ a.expired = false := ⟨_, _, rfl, rfl, by decide⟩
 
 end C03
 end FwdVerif
